@@ -57,6 +57,16 @@ CHECKS = {
          "DESIGN.md §7 C12",
          "go/parser and go/format (go1.23) define 'parses back' and 'canonical'. Position-less comments are supplied the way the repository's tests supply them (text beginning with a line break); comments carrying source positions (XGo's usage) are not asserted.",
          "property-based round-trip testing (generated + corpus inputs), metamorphic gofmt fixed-point oracle"),
+ "C13": ("exploration",
+         "Types are drawn from a recursive generator (depth <= 5 and beyond through nesting: all basic kinds, unsafe.Pointer, local named/alias/generic and imported named types, pointers, slices, arrays, maps, channels of every direction, functions, structs with embedding and awkward tags, interfaces, instantiations, type parameters), built with the go/types API inside a builder package, declared through the builder as variable type, alias, parameter, variadic parameter, result and generic-function parameter; the emitted package is type-checked and the canonical form of every declared type must equal that of the original. Sampling.",
+         "DESIGN.md §7 C13",
+         "go/types is the oracle of type identity; h/oracle.TypeKey is the canonical form; types whose go/types reference rendering is itself rejected are discarded (counted).",
+         "property-based round-trip testing (generate type -> emit through builder -> re-check -> compare canonical forms)"),
+ "C14": ("exploration",
+         "For generated value types the zero value the builder synthesises is checked in five uses: Package.Zero's reported type must be identical to T; `var Z T = zero`, `x := zero`, ReturnErr padding, the zero-argument conversion T() and an omitted optional argument are emitted and type-checked: go/types must accept them and x must get a type identical to T. Sampling.",
+         "DESIGN.md §7 C14",
+         "go/types is the oracle; 'evaluates to the zero value' is judged by form (literal 0/\"\"/false, nil, element-less composite literal), not by execution.",
+         "property-based testing: generated types, emitted zero values differential-checked with go/types"),
  "C19": ("exploration",
          "Model-based state-machine testing (rapid): random Set/Delete/At/Len/Keys/Iterate/String histories over a pool of generated type keys containing structurally identical but pointer-distinct rebuilds, aliases, permuted/flattened interfaces, permuted unions, renamed type parameters, separately created instantiations, deliberate hash-collision twins and same-named foreign types; after every step every observable is compared with an association list over types.Identical, and Identical=>equal-hash is checked on all pool pairs. Sampling, not proof: right level because the property quantifies over unbounded histories and type shapes.",
          "DESIGN.md §7 C19",
